@@ -1098,6 +1098,7 @@ func (s *Specifier) UnmarshalText(b []byte) error {
 	if len(b) > len(s) {
 		return fmt.Errorf("specifier %v too long (%v > 16)", b, len(b))
 	}
+	*s = Specifier{}
 	copy(s[:], b)
 	return nil
 }
